@@ -355,11 +355,11 @@ def n8_guard_arms(body, log, scrutinee="expr"):
 
 
 def n6_unwrap_or_else(body, log):
-    """N6: `OPT.unwrap_or_else(|| BODY)` where BODY is a block mutating captured locals
-    ==> `match OPT { Some(__v) => __v, None => BODY }`"""
+    """N6: `OPT.unwrap_or_else(|| BODY)` ==> `(match OPT { Some(__v) => __v, None => BODY })` (definition of
+    Option::unwrap_or_else; BODY may mutate captured locals, which Verus closures cannot)."""
     while True:
         m = mask(body)
-        hit = re.search(r"\.\s*unwrap_or_else\s*\(\s*\|\|\s*\{", m)
+        hit = re.search(r"\.\s*unwrap_or_else\s*\(\s*\|\|", m)
         if not hit:
             return body
         dot = hit.start()
@@ -367,8 +367,7 @@ def n6_unwrap_or_else(body, log):
         recv = body[rs:dot].strip()
         open_p = m.index("(", dot)
         close_p = match_close(m, open_p)
-        bs = hit.end() - 1
-        be = match_close(m, bs) + 1
+        ps, pe, bs, be = _closure_at(m, hit.end() - 2)
         if skip_ws(m, be) != close_p:
             raise Unsupported("N6: unexpected tokens after closure")
         _forbid_control(m[bs:be], "N6")
@@ -688,6 +687,39 @@ def n24_wildcard_param(body, log):
 
 
 
+def n22_format(body, log):
+    """N22: `format!("p0{}p1{}p2", a, b)` with plain `{}` placeholders only ==> `verif_format2(["p0", "p1", "p2"], &(a), &(b))`
+    (Display formatting with `{}` is the concatenation of the literal pieces and the Display text of the arguments; the shim
+    states the Display text of str / String / Cow<str>)."""
+    while True:
+        m = mask(body)
+        hit = re.search(r"(?<![A-Za-z0-9_])format!\s*\(", m)
+        if not hit:
+            return body
+        open_p = hit.end() - 1
+        close_p = match_close(m, open_p)
+        inner, minner = body[open_p + 1:close_p], m[open_p + 1:close_p]
+        from rstok import split_top_level
+        parts = [x.strip() for x in split_top_level(inner, minner, ",")]
+        if parts and parts[-1] == "":
+            parts = parts[:-1]
+        lit = parts[0]
+        if not (lit.startswith('"') and lit.endswith('"')):
+            raise Unsupported("N22: format string is not a plain literal")
+        text = lit[1:-1]
+        if "{{" in text or "}}" in text:
+            raise Unsupported("N22: escaped braces in format string")
+        pieces = text.split("{}")
+        if any("{" in x or "}" in x for x in pieces):
+            raise Unsupported("N22: format string uses placeholders other than `{}`")
+        args = parts[1:]
+        if len(args) != len(pieces) - 1 or not 1 <= len(args) <= 4:
+            raise Unsupported("N22: %d placeholders, %d arguments" % (len(pieces) - 1, len(args)))
+        new = "verif_format%d([%s], %s)" % (len(args), ", ".join('"%s"' % x for x in pieces), ", ".join("&(%s)" % a for a in args))
+        body = body[:hit.start()] + new + body[close_p + 1:]
+        log.append("N22")
+
+
 def n17_unsize(body, log):
     """N17: the implicit unsizing coercion `&mut X` -> `&mut dyn IdentProvider` in the struct literal field
     `ident_provider: &mut ident_provider` is made an explicit call of the identity function `verif_unsize_provider`
@@ -722,6 +754,7 @@ RULES = {
     "N20": n20_bool_then,
     "N21": n21_tokens_loop,
     "N24": n24_wildcard_param,
+    "N22": n22_format,
 }
 
 # order matters: N8 restructures arms first, N4 then wraps guarded blocks, then closures are inlined
